@@ -442,10 +442,33 @@ impl<'a> Elim<'a> {
                             out.push_str(" }");
                             return Some(out);
                         }
-                        Expr::If(ife) if ife.attrs.is_empty() => {
-                            if leaves_closure(&ife.cond) {
+                        Expr::If(ife) if ife.attrs.is_empty() && leaves_closure(&ife.cond) => {
+                            // `if let P = a()? { A } [else { B }]` / `if a()?.b() { .. }`: the `?`s of the
+                            // condition's receiver spine first, then the `if` on what is left
+                            let mut a = vec![WorkItem::Stmts(&ife.then_branch.stmts, tail_value)];
+                            a.extend_from_slice(&rest);
+                            let mut b = match &ife.else_branch {
+                                Some((_, eb)) => vec![Self::branch(eb, tail_value)],
+                                None => vec![],
+                            };
+                            b.extend_from_slice(&rest);
+                            if b.is_empty() {
                                 return None;
                             }
+                            let (scrut, head): (&Expr, String) = match &*ife.cond {
+                                Expr::Let(l) => (&*l.expr, format!("let {} = ", self.t(range_of(&*l.pat)))),
+                                other => (other, String::new()),
+                            };
+                            let body = self.hoist_tries(scrut, move |me, left| {
+                                let ta = me.seq(&a)?;
+                                let tb = me.seq(&b)?;
+                                Some(format!("{{ if {head}{left} {ta} else {tb} }}"))
+                            })?;
+                            out.push_str(&body);
+                            out.push_str(" }");
+                            return Some(out);
+                        }
+                        Expr::If(ife) if ife.attrs.is_empty() => {
                             let mut a = vec![WorkItem::Stmts(&ife.then_branch.stmts, tail_value)];
                             a.extend_from_slice(&rest);
                             let mut b = match &ife.else_branch {
@@ -890,7 +913,7 @@ struct BodyV<'a, 'b> {
     /// I1: token-normalised return type of the function, the call that is its tail expression,
     /// the call that is the operand of the `?` being visited
     ret_norm: String,
-    tail_call: Option<(usize, usize)>,
+    tail_call: Vec<(usize, usize)>,
     try_operand: Option<(usize, usize)>,
     /// the call that is the whole body of the closure being visited (`|x| helper(&x)`)
     closure_tail: Option<(usize, usize)>,
@@ -1437,7 +1460,7 @@ impl<'a, 'b, 'ast> Visit<'ast> for BodyV<'a, 'b> {
                 };
                 if let Some(info) = found {
                     let here = range_of(e);
-                    let in_tail = self.closure_depth == 0 && self.tail_call == Some(here) && info.ret_norm == self.ret_norm;
+                    let in_tail = self.closure_depth == 0 && self.tail_call.contains(&here) && info.ret_norm == self.ret_norm;
                     let in_try = self.closure_depth == 0 && self.try_operand == Some(here) && err_key(&info.ret_norm).is_some() && err_key(&info.ret_norm) == err_key(&self.ret_norm);
                     // the whole body of a closure: `return` / `?` in the helper leave the helper, written
                     // out they leave the closure - the same thing (the closure's result type is the helper's)
@@ -1736,7 +1759,18 @@ impl<'a, 'b, 'ast> Visit<'ast> for BodyV<'a, 'b> {
                 // `b.then(|| E)` is always written out as `if b { Some(E) } else { None }` (there is no
                 // specification of `bool::then` over an arbitrary closure)
                 let plain_then = name == "then" && c.inputs.is_empty();
-                if (((sc.mode == 2 || ext_mut) && self.world == "mut") || plain_then) && c.asyncness.is_none() && c.inputs.len() <= 1 && !leaves_closure(&c.body) {
+                // ... and a closure the contracts say nothing about (no `<callee>#k` clause): Verus knows
+                // nothing about what such a closure returns, the written-out `match` says it all
+                let effectful = (sc.mode == 2 || ext_mut) && self.world == "mut";
+                let next_key = format!("{}#{}", name, self.closure_counts.get(&name).cloned().unwrap_or(0) + 1);
+                let has_contract = self.unit.as_ref().map(|u| u.closures_by_text.iter().any(|(k, _)| *k == next_key)).unwrap_or(false);
+                let uncontracted = !effectful && !has_contract && name != "then" && c.capture.is_none();
+                if uncontracted && c.asyncness.is_none() && c.inputs.len() <= 1 && !leaves_closure(&c.body) {
+                    // keep the numbering of the later closures of this callee as it was
+                    self.closure_no += 1;
+                    *self.closure_counts.entry(name.clone()).or_insert(0) += 1;
+                }
+                if (effectful || plain_then || uncontracted) && c.asyncness.is_none() && c.inputs.len() <= 1 && !leaves_closure(&c.body) {
                     let whole = range_of(e);
                     let recv = range_of(&*e.receiver);
                     let body = range_of(&*c.body);
@@ -2678,11 +2712,26 @@ fn process_fn(
                         claimed_hints: HashSet::new(),
                         closure_counts: HashMap::new(),
         ret_norm: sig.output.to_token_stream().to_string(),
-        tail_call: block.and_then(|b| match b.stmts.last() {
-            Some(Stmt::Expr(Expr::Call(c), None)) => Some(range_of(c)),
-            Some(Stmt::Expr(Expr::Await(a), None)) => match &*a.base { Expr::Call(c) => Some(range_of(c)), _ => None },
-            _ => None,
-        }),
+        tail_call: {
+            // calls in tail position of the function: the tail expression, or the tail of a branch of it
+            fn collect(e: &Expr, out: &mut Vec<(usize, usize)>) {
+                match e {
+                    Expr::Call(c) => out.push(range_of(c)),
+                    Expr::Await(a) => if let Expr::Call(c) = &*a.base { out.push(range_of(c)) },
+                    Expr::If(i) => {
+                        if let Some(Stmt::Expr(t, None)) = i.then_branch.stmts.last() { collect(t, out); }
+                        if let Some((_, eb)) = &i.else_branch { collect(eb, out); }
+                    }
+                    Expr::Match(m) => for a in &m.arms { collect(&a.body, out); },
+                    Expr::Block(b) if b.label.is_none() => if let Some(Stmt::Expr(t, None)) = b.block.stmts.last() { collect(t, out); },
+                    Expr::Paren(p) => collect(&p.expr, out),
+                    _ => {}
+                }
+            }
+            let mut v = vec![];
+            if let Some(Stmt::Expr(t, None)) = block.and_then(|b| b.stmts.last()) { collect(t, &mut v); }
+            v
+        },
         try_operand: None,
         closure_tail: None,
         asref_idents: HashSet::new(),
@@ -3129,6 +3178,13 @@ fn main() {
                 }
             }
             visit::visit_expr_call(self, e);
+        }
+        fn visit_macro(&mut self, m: &'ast Macro) {
+            if let Ok(args) = m.parse_body_with(Punctuated::<Expr, Token![,]>::parse_terminated) {
+                for a in args.iter() {
+                    self.visit_expr(a);
+                }
+            }
         }
     }
     for (fname, _) in cfgv["files"].as_object().unwrap() {
@@ -3925,7 +3981,7 @@ fn main() {
                         calls_seen: Vec::new(),
                         claimed_hints: HashSet::new(),
                         closure_counts: HashMap::new(),
-                        ret_norm: String::new(), tail_call: None, try_operand: None, closure_tail: None, asref_idents: HashSet::new(),
+                        ret_norm: String::new(), tail_call: vec![], try_operand: None, closure_tail: None, asref_idents: HashSet::new(),
                     };
                     match item {
                         Item::Struct(s) => make_pub(bv.fc, &s.vis, br(s.struct_token.span()).0),
@@ -4110,7 +4166,7 @@ fn main() {
                         calls_seen: Vec::new(),
                         claimed_hints: HashSet::new(),
                         closure_counts: HashMap::new(),
-                        ret_norm: String::new(), tail_call: None, try_operand: None, closure_tail: None, asref_idents: HashSet::new(),
+                        ret_norm: String::new(), tail_call: vec![], try_operand: None, closure_tail: None, asref_idents: HashSet::new(),
                         };
                         bv.visit_type(&im.self_ty);
                         if !inherent {
